@@ -610,3 +610,270 @@ func ruleBytesNil(c *Ctx) {
 	}
 	c.Floor("X.bytes.nil", 1)
 }
+
+// ---------------------------------------------------------------------------
+// Round 13.
+
+// X.pool.fresh: the New function of every sync.Pool in the module hands out a
+// value made by that very call (a call result or an allocation inside the
+// function): a captured or stored value handed out again is one scratch area
+// shared by every goroutine that finds the pool empty.
+func rulePoolFresh(c *Ctx) {
+	p := c.P
+	n := 0
+	for _, f := range p.moduleFuncs() {
+		for _, b := range f.Blocks {
+			for _, in := range b.Instrs {
+				st, ok := in.(*ssa.Store)
+				if !ok {
+					continue
+				}
+				fa, ok := st.Addr.(*ssa.FieldAddr)
+				if !ok || fieldName(fa) != "New" || !strings.HasSuffix(derefT(fa.X.Type()).String(), "sync.Pool") {
+					continue
+				}
+				var nf *ssa.Function
+				switch v := st.Val.(type) {
+				case *ssa.MakeClosure:
+					nf, _ = v.Fn.(*ssa.Function)
+				case *ssa.Function:
+					nf = v
+				}
+				n++
+				good := nf != nil && len(nf.Blocks) > 0
+				if good {
+					// a bound method value (c.newKey) is a wrapper that calls the method: look through it
+					for depth := 0; depth < 3; depth++ {
+						if len(nf.Blocks) == 1 {
+							var only *ssa.Call
+							calls := 0
+							for _, in2 := range nf.Blocks[0].Instrs {
+								if cl, ok := in2.(*ssa.Call); ok {
+									only = cl
+									calls++
+								}
+							}
+							if calls == 1 {
+								if cal := only.Common().StaticCallee(); cal != nil && cal.Pkg == nf.Pkg && len(cal.Blocks) > 0 && (nf.Synthetic != "" || strings.Contains(nf.Name(), "$bound")) {
+									nf = cal
+									continue
+								}
+							}
+						}
+						break
+					}
+					for _, b2 := range nf.Blocks {
+						ret, ok := b2.Instrs[len(b2.Instrs)-1].(*ssa.Return)
+						if !ok || len(ret.Results) != 1 {
+							continue
+						}
+						v := ret.Results[0]
+						for i := 0; i < 4; i++ {
+							switch x := v.(type) {
+							case *ssa.MakeInterface:
+								v = x.X
+								continue
+							case *ssa.ChangeType:
+								v = x.X
+								continue
+							case *ssa.Convert:
+								v = x.X
+								continue
+							}
+							break
+						}
+						fresh := false
+						switch x := v.(type) {
+						case *ssa.Call:
+							fresh = x.Block() != nil && x.Parent() == nf
+						case *ssa.Alloc:
+							fresh = x.Heap
+						case *ssa.MakeSlice, *ssa.MakeMap:
+							fresh = true
+						}
+						if !fresh {
+							good = false
+						}
+					}
+				}
+				c.Oblige("X.pool.fresh", good, st.Pos(), ssaFuncName(f), "the pool's New makes a new value on every call",
+					"a sync.Pool hands its scratch values to one user at a time only if New allocates: a New that returns a captured value gives every goroutine that finds the pool empty the same memory", nil)
+			}
+		}
+	}
+	c.Floor("X.pool.fresh", 1)
+	_ = n
+}
+
+// X.marshal.deref: Marshal follows exactly one level of pointer. The data word
+// of the interface is dereferenced only for a pointer to a map (the map codec
+// wants the map itself): any other load through it - a loop that strips every
+// level - dereferences a nil inner pointer that the pointer codec would have
+// written as nothing.
+func ruleMarshalDeref(c *Ctx) {
+	name := "plenc.Plenc.Marshal"
+	f := c.P.ssaFunc(name)
+	if f == nil {
+		c.Oblige("X.marshal.deref", false, token.NoPos, name, "function", "not found", nil)
+		return
+	}
+	n := 0
+	loops := loopsOf(f)
+	for _, b := range f.Blocks {
+		for _, in := range b.Instrs {
+			u, ok := in.(*ssa.UnOp)
+			if !ok || u.Op != token.MUL || !isUnsafePointer(u.Type()) {
+				continue
+			}
+			cv, ok := u.X.(*ssa.Convert)
+			if !ok || !isUnsafePointer(cv.X.Type()) {
+				continue
+			}
+			// *(*unsafe.Pointer)(ptr)
+			n++
+			inLoop := false
+			for _, body := range loops {
+				if body[b] {
+					inLoop = true
+				}
+			}
+			underMap := false
+			conds, truths := controllingConds(b)
+			for i, cd := range conds {
+				if bo, ok := cd.(*ssa.BinOp); ok && bo.Op == token.EQL && truths[i] {
+					for _, o := range []ssa.Value{bo.X, bo.Y} {
+						if k, ok := o.(*ssa.Const); ok && k.Value != nil {
+							if v, ok := constant.Int64Val(constant.ToInt(k.Value)); ok && v == 21 { // reflect.Map
+								underMap = true
+							}
+						}
+					}
+				}
+			}
+			c.Oblige("X.marshal.deref", underMap && !inLoop, u.Pos(), name, "the data word is dereferenced only for a pointer to a map, once",
+				"Marshal takes the value or one pointer to it; following further pointer levels itself (instead of leaving them to the pointer codec, which writes a nil as nothing) dereferences nil for `var p *T; Marshal(buf, &p)`", nil)
+		}
+	}
+	c.Floor("X.marshal.deref", 1)
+	_ = n
+}
+
+// T.mapvalue-refused: a map whose values are maps is refused whatever the
+// registry holds: with the value kind forced to Map no success return of
+// BuildMapCodec is reachable.
+func ruleMapValueRefused(c *Ctx) {
+	name := "plenccodec.BuildMapCodec"
+	f := c.P.ssaFunc(name)
+	if f == nil {
+		c.Oblige("T.mapvalue-refused", false, token.NoPos, name, "function", "not found", nil)
+		return
+	}
+	var typ ssa.Value
+	for _, prm := range f.Params {
+		if typeName(prm.Type()) == "Type" {
+			typ = prm
+		}
+	}
+	isElemKind := func(v ssa.Value) bool {
+		call, ok := v.(*ssa.Call)
+		if !ok || !call.Common().IsInvoke() || call.Common().Method.Name() != "Kind" {
+			return false
+		}
+		inner, ok := call.Common().Value.(*ssa.Call)
+		return ok && inner.Common().IsInvoke() && inner.Common().Method.Name() == "Elem" && inner.Common().Value == typ
+	}
+	fe := feasibleUnder(f, func(v ssa.Value) (constant.Value, bool) {
+		if isElemKind(v) {
+			return constant.MakeInt64(21), true
+		}
+		return nil, false
+	})
+	bad := token.NoPos
+	for _, b := range f.Blocks {
+		if !fe.reach[b] {
+			continue
+		}
+		if ret, ok := b.Instrs[len(b.Instrs)-1].(*ssa.Return); ok && !isFailureReturnLoose(f, ret) {
+			bad = ret.Pos()
+		}
+	}
+	c.Oblige("T.mapvalue-refused", fe.sawLeaf && !bad.IsValid(), f.Pos(), name, "a map of maps is refused unconditionally",
+		"map codecs take the map itself when encoding and its address when decoding; as a map value neither convention can be met, so the type is refused - with the value kind forced to Map no success return may be reachable (a refusal that depends on what the registry holds lets the type through after the inner map has been used, and Marshal then dereferences nil)", nil)
+	c.Floor("T.mapvalue-refused", 1)
+}
+
+// X.walker.emptyfield: in the walker's struct reader a field that is present
+// with an empty body is still a field: the path to NameField is not decided
+// by the length read for it.
+func ruleWalkerEmptyField(c *Ctx) {
+	name := "plenccodec.Descriptor.readAsStruct"
+	f := c.P.ssaFunc(name)
+	if f == nil {
+		c.Oblige("X.walker.emptyfield", false, token.NoPos, name, "function", "not found", nil)
+		return
+	}
+	nameBlocks := map[*ssa.BasicBlock]bool{}
+	for _, b := range f.Blocks {
+		for _, in := range b.Instrs {
+			if call, ok := in.(*ssa.Call); ok && call.Common().IsInvoke() && call.Common().Method.Name() == "NameField" {
+				nameBlocks[b] = true
+			}
+		}
+	}
+	n := 0
+	for _, b := range f.Blocks {
+		for _, in := range b.Instrs {
+			cn, call := staticCalleeName(in)
+			if call == nil || cn != "plenccore.ReadVarUint" {
+				continue
+			}
+			var ln *ssa.Extract
+			for _, r := range *call.Referrers() {
+				if ex, ok := r.(*ssa.Extract); ok && ex.Index == 0 {
+					ln = ex
+				}
+			}
+			if ln == nil {
+				continue
+			}
+			n++
+			// with the length forced to 0, every way on from the read that does not
+			// fail passes the NameField call: no way round it back to the field loop
+			// or to a success return
+			fe := feasibleFrom(f, b, false, func(v ssa.Value) (constant.Value, bool) {
+				if v == ssa.Value(ln) {
+					return constant.MakeInt64(0), true
+				}
+				return nil, false
+			})
+			bad := false
+			seen := map[*ssa.BasicBlock]bool{b: true}
+			work := []*ssa.BasicBlock{b}
+			for len(work) > 0 {
+				cur := work[len(work)-1]
+				work = work[:len(work)-1]
+				for _, sc := range cur.Succs {
+					if !fe.feasible[[2]*ssa.BasicBlock{cur, sc}] || nameBlocks[sc] {
+						continue
+					}
+					if sc != b && sc.Dominates(b) {
+						bad = true // back to the loop without naming the field
+					}
+					if ret, ok := sc.Instrs[len(sc.Instrs)-1].(*ssa.Return); ok && !isFailureReturnLoose(f, ret) {
+						bad = true
+					}
+					if !seen[sc] {
+						seen[sc] = true
+						work = append(work, sc)
+					}
+				}
+			}
+			c.Oblige("X.walker.emptyfield", !bad && len(nameBlocks) > 0, call.Pos(), name, "a field with an empty body is still named",
+				"a present pointer to an empty string or to a zero struct is written as tag and length 0: the typed reader yields a non-nil pointer, so the walker must render the field - with the length forced to 0 no path from the length read leads back to the field loop or to a success return without passing NameField", nil)
+		}
+	}
+	if n == 0 {
+		c.Oblige("X.walker.emptyfield", false, f.Pos(), name, "length read", "not found", nil)
+	}
+	c.Floor("X.walker.emptyfield", 1)
+}
